@@ -41,11 +41,18 @@ ASSUMPTIONS = ["ResolveShortHash is given at most 32 base32 characters (hash.Par
 REQUIRED_TAGS = ["table", "journal", "manifest", "t-pristine", "t-open-err", "t-get-err", "t-has-err", "t-iter-err", "t-gm-err", "t-iter-mislabel",
                  "t-absent", "t-misread", "j-ok", "j-err", "j-dataloss", "j-truncated", "m-ok", "m-err",
                  "reg:length-lt-checksum-size", "reg:ordinal-ge-count", "reg:length-gt-iterate-buffer", "reg:journal-short-field", "reg:manifest-bad-root", "reg:resolve-short-hash",
+                 "archive", "a-open-ok", "a-open-err", "a-get-ok", "a-get-err", "a-get-panic", "a-misread", "a-iter-ok", "a-iter-panic", "a-iter-bad", "t-extras",
+                 "store", "s-table-manifest", "s-table-table", "s-journal-journal", "s-journal-idx", "s-archive-archive", "s-open-ok", "s-open-err", "s-op-err", "s-all-ok",
                  "resolve", "r-short-ok", "r-long-ok", "r-short-err", "r-long-err", "r-found", "r-none", "r-last-tuple-long"]
 
 # open known findings (reads never compare the content hash with the address).  The repaired findings
 # (table-index:length-lt-checksum-size, table-index:ordinal-ge-count, table-index:length-gt-iterate-buffer,
 #  journal-record:short-field-valid-crc, manifest:root-hash-malformed) are NOT matched any more: a panic is a violation.
+KEY_A_REF = "archive-index:chunk-ref-unchecked"
+KEY_A_LEN = "archive-index:span-length-unchecked"
+KEY_A_CNT = "archive-footer:counts-unchecked"
+KEY_A_SWAP = "archive-index:chunk-ref-redirected-valid-crc"
+KEY_A_ITER = "archive-index:iterate-address-from-corrupt-index"
 KEY_SWAP = "table-file:record-replaced-valid-crc"
 KEY_ITER = "table-index:iterate-address-from-corrupt-index"
 
@@ -323,6 +330,111 @@ def resolve_cases(rng, tier):
     return out
 
 
+def acase(chunks, muts, label, gm=False, extras=False):
+    return {"k": "archive", "chunks": chunks, "absent": [[1, 2, 3]], "cnt": -1, "muts": muts, "label": label, "gm": gm, "extras": extras}
+
+
+def be64(v):
+    return [(v >> (8 * i)) & 255 for i in range(7, -1, -1)]
+
+
+def archive_cases(rng, tier):
+    """Archives written by the real stream writer (snappy chunks only at these sizes: byte span i+1 = chunk i's record)."""
+    out = []
+    quick = tier == "quick"
+    for c in ((3,) if quick else (1, 2, 3, 5)):
+        chunks = table_base(rng, c, same=True)
+        A = lambda muts, label, **kw: out.append(acase(chunks, muts, label, **kw))
+        A([], "a-pristine", gm=True, extras=True)
+        # chunk references (dict id, data id) at refs + 8*i
+        for i in range(c):
+            for v in ((0, c + 1, (i + 1) % c + 1) if quick else (0, c + 1, c + 2, 0xFFFFFFFF, (i + 1) % c + 1)):
+                A([{"op": "aset", "reg": "refs", "pos": 8 * i + 4, "bytes": be32(v)}], "a-ref-data", extras=(i == 0))
+            A([{"op": "aset", "reg": "refs", "pos": 8 * i, "bytes": be32(1)}], "a-ref-dict")
+        if c >= 2:
+            A([{"op": "aset", "reg": "refs", "pos": 4, "bytes": be32(2)}, {"op": "aset", "reg": "refs", "pos": 12, "bytes": be32(1)}], "a-ref-swap", gm=True, extras=True)
+        # span offsets (uint64 each): equal neighbours (zero length), decreasing (length wraps >= 2^63), low-byte flips
+        A([{"op": "aset", "reg": "spans", "pos": 0, "bytes": be64(0)}], "a-span", extras=True)
+        A([{"op": "aset", "reg": "spans", "pos": 0, "bytes": be64(60000)}], "a-span")
+        if c >= 2:
+            A([{"op": "aset", "reg": "spans", "pos": 8, "bytes": be64(1)}], "a-span")
+        for _ in range(3 if quick else 20):
+            A([{"op": "axor", "reg": "spans", "pos": 8 * rng.randrange(c) + rng.choice([6, 7]), "v": rng.choice(FLIPS)}], "a-span-flip")
+        # prefixes / suffixes
+        A([{"op": "aset", "reg": "prefixes", "pos": 0, "bytes": [255] * 8}], "a-prefix", extras=True)
+        A([{"op": "aset", "reg": "prefixes", "pos": 8 * (c - 1), "bytes": [0] * 8}], "a-prefix")
+        for _ in range(4 if quick else 30):
+            A([{"op": "axor", "reg": "prefixes", "pos": rng.randrange(8 * c), "v": rng.choice(FLIPS)}], "a-prefix-flip")
+        for _ in range(4 if quick else 30):
+            A([{"op": "axor", "reg": "suffixes", "pos": rng.randrange(12 * c), "v": rng.choice(FLIPS)}], "a-suffix-flip", extras=quick is False)
+        # footer: index length(8) spans(4) chunks(4) meta(4) checksums(192) version(1) signature(7)
+        # versions < 3 have a 216-byte footer: every index section is read 4 bytes off (slow: see a-footer-count below)
+        for v in ((4, 255) if quick else (0, 1, 2, 4, 255)):
+            A([{"op": "aset", "reg": "footer", "pos": 212, "bytes": [v]}], "a-version")
+        A([{"op": "axor", "reg": "footer", "pos": 215, "v": 1}], "a-signature")
+        A([{"op": "aset", "reg": "footer", "pos": 12, "bytes": be32(c - 1)}], "a-footer-count")
+        A([{"op": "aset", "reg": "footer", "pos": 8, "bytes": be32(c - 1)}], "a-footer-count")
+        A([{"op": "aset", "reg": "footer", "pos": 12, "bytes": be32(0x80000000)}], "a-footer-huge")
+        A([{"op": "aset", "reg": "footer", "pos": 8, "bytes": be32(0xFFFFFFFF)}], "a-footer-huge")
+        A([{"op": "aset", "reg": "footer", "pos": 0, "bytes": be64(10 ** 15)}], "a-footer-isz")
+        A([{"op": "aset", "reg": "footer", "pos": 16, "bytes": be32(0xFFFFFFF0)}], "a-footer-meta")
+        for _ in range(3 if quick else 40):
+            A([{"op": "axor", "reg": "footer", "pos": rng.choice([7, 11, 15, 19] + list(range(20, 212))), "v": rng.choice(FLIPS)}], "a-footer-flip")
+        if not quick:
+            # counts that shift the index sections: span lengths become garbage (slow: the iteration doubles its buffer until the process dies)
+            A([{"op": "aset", "reg": "footer", "pos": 8, "bytes": be32(c + 6)}], "a-footer-count", extras=True)
+            A([{"op": "aset", "reg": "footer", "pos": 12, "bytes": be32(c + 1)}], "a-footer-count")
+        for n in ((1, 7, 8, 220, 221, 300) if quick else range(1, 330, 3)):
+            A([{"op": "trunc", "n": n}], "a-trunc")
+        for _ in range(3 if quick else 30):
+            A([{"op": "xor", "pos": rng.randrange(0, 12 * c), "v": rng.choice(FLIPS)}], "a-data-flip")
+        A([{"op": "append", "bytes": rbytes(rng, 9)}], "a-append")
+    return out
+
+
+def scase(layout, batches, target, muts, label, targetn=0):
+    return {"k": "store", "layout": layout, "batches": batches, "absent": [[9, 9, 9]], "target": target, "targetn": targetn,
+            "muts": muts, "label": label, "gm": True}
+
+
+def store_cases(rng, tier):
+    """A real database directory; one file corrupted; opened through NewLocalStore / NewLocalJournalingStore (oracle only)."""
+    out = []
+    quick = tier == "quick"
+    n = 1 if quick else 8
+    b2 = [[rbytes(rng, rng.randint(3, 20)) for _ in range(2)], [rbytes(rng, rng.randint(3, 20)) for _ in range(2)]]
+    b1 = [[rbytes(rng, 9) for _ in range(3)]]
+    flip = lambda lo, hi: {"op": "xor", "pos": rng.randrange(lo, hi), "v": rng.choice(FLIPS)}
+    for layout, batches in (("table", b2), ("journal", b2), ("archive", b1)):
+        out.append(scase(layout, batches, "manifest", [], "s-pristine"))
+        for _ in range(4 * n):
+            out.append(scase(layout, batches, "manifest", [flip(0, 150)], "s-manifest"))
+        out.append(scase(layout, batches, "manifest", [{"op": "trunc", "n": rng.randint(1, 60)}], "s-manifest"))
+        out.append(scase(layout, batches, "manifest", [{"op": "xor", "pos": 50, "v": 128}], "s-manifest-root"))
+    for _ in range(5 * n):
+        out.append(scase("table", b2, "table", [flip(-90, -1)], "s-table", targetn=rng.randrange(2)))
+    for _ in range(2 * n):
+        out.append(scase("table", b2, "table", [flip(0, 40)], "s-table", targetn=rng.randrange(2)))
+    out.append(scase("table", b2, "table", [{"op": "trunc", "n": rng.randint(1, 80)}], "s-table"))
+    out.append(scase("table", b2, "table", [{"op": "trunc", "n": 100000}], "s-table"))
+    for _ in range(6 * n):
+        out.append(scase("journal", b2, "journal", [flip(0, 250)], "s-journal"))
+    for k in (1, 5, 30, 60):
+        out.append(scase("journal", b2, "journal", [{"op": "trunc", "n": k}], "s-journal-trunc"))
+    out.append(scase("journal", b2, "journal", [{"op": "append", "bytes": rbytes(rng, 40)}], "s-journal"))
+    out.append(scase("journal", b2, "journal", [{"op": "set", "pos": 0, "bytes": [0, 0, 0, 10, 2, 1]}], "s-journal"))
+    for _ in range(4 * n):
+        out.append(scase("journal", b2, "idx", [flip(0, 120)], "s-idx"))
+    out.append(scase("journal", b2, "idx", [{"op": "trunc", "n": rng.randint(1, 30)}], "s-idx"))
+    for i in range(3):
+        out.append(scase("archive", b1, "archive", [{"op": "aset", "reg": "refs", "pos": 8 * i + 4, "bytes": be32(rng.choice([0, 7, (i + 1) % 3 + 1]))}], "s-archive"))
+    out.append(scase("archive", b1, "archive", [{"op": "aset", "reg": "spans", "pos": 8, "bytes": be64(1)}], "s-archive"))
+    for _ in range(3 * n):
+        out.append(scase("archive", b1, "archive", [{"op": "axor", "reg": rng.choice(["prefixes", "suffixes", "refs"]), "pos": rng.randrange(24), "v": rng.choice(FLIPS)}], "s-archive"))
+    out.append(scase("archive", b1, "archive", [{"op": "aset", "reg": "footer", "pos": 212, "bytes": [9]}], "s-archive"))
+    return out
+
+
 def gen_cases(rng, tier):
     reg = regression_cases()
     # fixed:a794b79 — ordinal > count reached hashAt; a >= 13 character prefix of the last tuple scanned past count on a valid file
@@ -331,7 +443,7 @@ def gen_cases(rng, tier):
     r2 = rcase(REG_CHUNKS, [], [{"tuple": -1, "n": 13}, {"tuple": -1, "n": 32}, {"tuple": 0, "n": 13}], "regression")
     for r in (r1, r2):
         r["reg"] = "resolve-short-hash"
-    return reg + [r1, r2] + gen_cases_random(rng, tier) + resolve_cases(rng, tier)
+    return reg + [r1, r2] + gen_cases_random(rng, tier) + resolve_cases(rng, tier) + archive_cases(rng, tier) + store_cases(rng, tier)
 
 
 def gen_cases_random(rng, tier):
@@ -339,6 +451,7 @@ def gen_cases_random(rng, tier):
     for i, c in enumerate(tc):
         # getMany runs on errgroup goroutines: a panic there costs a worker restart (~1 s); quick runs it on a third of the cases
         c["gm"] = tier != "quick" or i % 3 == 0 or c["label"] in ("pristine", "swaprec")
+        c["extras"] = tier != "quick" or i % 4 == 1 or c["label"] in ("pristine", "swaprec")
     return tc + journal_cases(rng, tier) + manifest_cases(rng, tier)
 
 
@@ -352,9 +465,9 @@ GM = {"ok": 0, "bad": 1, "err": 2, "crash": 3, "skip": 4}
 CLASS = {"ok": 0, "err": 1, "panic": 2, "dataloss": 3}
 
 
-def _obs(open_=0, res="[]", it=4, itn=0, gm=4, cl=0, recs="[]", off=0, man="None"):
-    return ("{| o_open := %d; o_res := %s; o_iter := %d; o_itern := %d; o_gm := %d; o_class := %d; o_recs := %s; o_off := %d; o_man := %s |}"
-            % (open_, res, it, itn, gm, cl, recs, off, man))
+def _obs(open_=0, res="[]", it=4, itn=0, gm=4, cl=0, recs="[]", off=0, man="None", extra=()):
+    return ("{| o_open := %d; o_res := %s; o_iter := %d; o_itern := %d; o_gm := %d; o_class := %d; o_recs := %s; o_off := %d; o_man := %s; o_extra := %s |}"
+            % (open_, res, it, itn, gm, cl, recs, off, man, cq_list(str(int(x)) for x in extra)))
 
 
 def b32decode(sx):
@@ -370,8 +483,10 @@ def coq_case(case, out):
     crashed = o is None or "crash" in o
     if crashed:
         # whole-worker crash / harness failure: an observation no model agrees with and the oracle rejects
-        if k in ("table", "resolve"):
+        if k in ("table", "resolve", "archive"):
             return "(ITable [] 0 [], %s)" % _obs(open_=2)
+        if k == "store":
+            return "(IStore 0, %s)" % _obs(open_=2)
         return "(%s [], %s)" % ("IJournal" if k == "journal" else "IManifest", _obs(cl=2))
     if k == "resolve":
         inp = "IResolve %s %d %s" % (cq_bytes(o["bytes"]), o["cnt"], cq_list(cq_bytes(x) for x in (o["shorts"] or [])))
@@ -380,11 +495,17 @@ def coq_case(case, out):
                                             cq_bytes(b"".join(b32decode(x) for x in (r["res"] or []))), len(r["res"] or []))
                        for r in (o["resolve"] or []))
         return "(%s, %s)" % (inp, _obs(open_=op, recs=recs))
-    if k == "table":
-        inp = "ITable %s %d %s" % (cq_bytes(o["bytes"]), o["cnt"], cq_list(cq_bytes(a) for a in o["addrs"]))
+    if k in ("table", "archive"):
+        if k == "table":
+            inp = "ITable %s %d %s" % (cq_bytes(o["bytes"]), o["cnt"], cq_list(cq_bytes(a) for a in o["addrs"]))
+        else:
+            inp = "IArchive %s %s" % (cq_bytes(o["bytes"]), cq_list(cq_bytes(a) for a in o["addrs"]))
         op = {"ok": 0, "err": 1, "panic": 2}[o["open"]]
         res = cq_list("(%d, %d)" % (HAS[r["has"]], GET[r["get"]]) for r in o["res"])
-        return "(%s, %s)" % (inp, _obs(open_=op, res=res, it=ITER[o["iter"]], itn=o["itern"], gm=GM[o["getmany"]]))
+        return "(%s, %s)" % (inp, _obs(open_=op, res=res, it=ITER[o["iter"]], itn=o["itern"], gm=GM[o["getmany"]], extra=o.get("extra") or ()))
+    if k == "store":
+        op = {"ok": 0, "err": 1, "panic": 2, "notarget": 5}[o["open"]]
+        return "(IStore %d, %s)" % (op, _obs(open_=op, gm=GM[o["getmany"]], extra=o.get("extra") or ()))
     if k == "journal":
         recs = cq_list("(%d, %d, %s, %d)" % (r["off"], r["kind"], cq_bytes(r["addr"]), r["plen"]) for r in (o["recs"] or []))
         return "(IJournal %s, %s)" % (cq_bytes(o["bytes"]), _obs(cl=CLASS[o["class"]], recs=recs, off=o["off"]))
@@ -423,23 +544,46 @@ def evidence(case, out):
         return [("crash", o["crash"])]
     ev = []
     for d in o.get("detail") or []:
-        ev.append(("panic", d))
+        if not d.startswith("open: ") or o.get("open") == "panic":
+            ev.append(("panic", d))
     if o.get("getmany") == "crash":
         ev.append(("panic", "getmany: " + (o.get("crashmsg") or "")))
-    if o.get("k") == "table":
-        if any(r["get"] == "bad" for r in o["res"]) or o.get("iter") == "bad" or o.get("getmany") == "bad":
-            ev.append(("misread", ""))
+    if o.get("k") in ("table", "archive"):
+        if any(r["get"] == "bad" for r in o["res"]) or o.get("getmany") == "bad":
+            ev.append(("misread", "get"))
+        elif o.get("iter") == "bad" or 1 in (o.get("extra") or []):
+            ev.append(("misread", "iter"))
+    if o.get("k") == "store":
+        if 1 in (o.get("extra") or []) or o.get("getmany") == "bad":
+            ev.append(("misread", "get"))
     return ev
 
 
+ARCHIVE_PANIC_REF = ("expected true", "Reverse Index")
+ARCHIVE_PANIC_LEN = ("makeslice", "out of memory", "slice bounds out of range", "timeout", "cannot allocate")
+
+
 def attribute(case, out, kind, msg):
-    """The OPEN known-finding key a piece of evidence belongs to, or None.  Panics and crashes belong to none."""
+    """The OPEN known-finding key a piece of evidence belongs to, or None.  Table/journal/manifest panics belong to none."""
     o = out.get("obs") or {}
-    if case["k"] == "table" and kind == "misread":
+    k = case["k"]
+    is_archive = k == "archive" or (k == "store" and case.get("layout") == "archive" and case.get("target") == "archive")
+    if k == "table" and kind == "misread":
         if any(m["op"] in ("swaprec", "cprec") for m in case["muts"]):
             return KEY_SWAP
-        if o.get("iter") == "bad" and o.get("getmany") != "bad" and not any(r["get"] == "bad" for r in o["res"]):
-            return KEY_ITER                   # only the iteration mislabels: it takes the address from the (unchecksummed) index
+        if msg == "iter":
+            return KEY_ITER                   # only iteration / extract mislabel: they take the address from the (unchecksummed) index
+        return None
+    if is_archive and kind == "misread":
+        return KEY_A_SWAP if msg == "get" else KEY_A_ITER
+    if is_archive and kind in ("panic", "crash"):
+        label = case.get("label") or ""
+        if label.startswith("a-footer") and any(x in msg for x in ARCHIVE_PANIC_LEN + ARCHIVE_PANIC_REF):
+            return KEY_A_CNT
+        if any(x in msg for x in ARCHIVE_PANIC_REF):
+            return KEY_A_REF
+        if any(x in msg for x in ARCHIVE_PANIC_LEN):
+            return KEY_A_LEN
     return None
 
 
@@ -466,7 +610,35 @@ def classify(case, out):
         t.append("reg:" + case["reg"])
     if o is None or "crash" in o:
         return t + ["worker-crash"]
-    if k == "table":
+    if k == "archive":
+        t.append("a-open-" + o["open"])
+        gets = [r["get"] for r in o["res"]]
+        if "panic" in gets:
+            t.append("a-get-panic")
+        if "bad" in gets:
+            t.append("a-misread")
+        if any(g in ("eof", "crc", "empty", "err", "snappy") for g in gets):
+            t.append("a-get-err")
+        if "ok" in gets:
+            t.append("a-get-ok")
+        t.append("a-iter-" + o["iter"])
+        if 3 in (o.get("extra") or []):
+            t.append("a-extras-crash")
+        for kind, msg in evidence(case, out):
+            t.append("finding:" + (attribute(case, out, kind, msg) or "UNATTRIBUTED"))
+    elif k == "store":
+        t.append("s-%s-%s" % (case["layout"], case["target"]))
+        t.append("s-open-" + o["open"])
+        ex = o.get("extra") or []
+        if 2 in ex:
+            t.append("s-op-err")
+        if ex and all(x == 0 for x in ex):
+            t.append("s-all-ok")
+        for kind, msg in evidence(case, out):
+            t.append("finding:" + (attribute(case, out, kind, msg) or "UNATTRIBUTED"))
+    elif k == "table":
+        if "extraops" in o and o["extraops"]:
+            t.append("t-extras")
         if not case["muts"] and case["cnt"] < 0:
             t.append("t-pristine")
         t.append("t-open-" + o["open"])
